@@ -222,6 +222,9 @@ func (e *Exec) constrainInput(v *Val, T types.Type) {
 			e.constrainInput(&v.F[i], u.Field(i).Type())
 		}
 	case *types.Interface:
+		if v.S != "" {
+			e.assume(app("<=", app("iref", v.S), "alloc0"))
+		}
 	}
 }
 
